@@ -54,8 +54,14 @@ func saveFileExtensionHandlers(handlers map[string]string) error {
 		return fmt.Errorf("couldn't json-encode file extension handlers: %w", err)
 	}
 	verifhook.BeforeWrite("extensions.before_write", octosqlFileExtensionHandlersFile, data)
-	if err := os.WriteFile(octosqlFileExtensionHandlersFile, data, 0644); err != nil {
+	// Write to a temporary file and rename it into place, so that a crash mid-write can't leave a
+	// truncated registry behind (it's read on every start).
+	tmpFile := octosqlFileExtensionHandlersFile + ".tmp"
+	if err := os.WriteFile(tmpFile, data, 0644); err != nil {
 		return fmt.Errorf("couldn't write file extension handlers to file: %w", err)
+	}
+	if err := os.Rename(tmpFile, octosqlFileExtensionHandlersFile); err != nil {
+		return fmt.Errorf("couldn't move file extension handlers file into place: %w", err)
 	}
 	verifhook.Point("extensions.after_write")
 	return nil
